@@ -433,6 +433,25 @@ func runHistory(t *rapid.T, p *pipeline, withOdd bool) {
 			}
 			k := rapid.SampledFrom(cands).Draw(t, "faultvictim")
 			in := w.inst[k]
+			// the lookup only happens (and only hurts) while the service still has a healthy
+			// instance: make sure there is a sibling that stays healthy
+			hasSibling := false
+			for k2, other := range w.inst {
+				if k2 != k && other.Name == in.Name && p.healthy(w, other) {
+					hasSibling = true
+				}
+			}
+			if !hasSibling {
+				sibID := in.Name + "-sib"
+				if in.ID == sibID {
+					sibID = in.Name + "-sib2"
+				}
+				sib := &fakeconsul.Instance{Node: in.Node, NodeAddr: in.NodeAddr, ID: sibID, Name: in.Name, Addr: "10.9.9.9", Port: 1999 + len(sibID)%2,
+					Tags: []string{rapid.SampledFrom([]string{"urlprefix-/a", "urlprefix-/sib", "urlprefix-foo.com/"}).Draw(t, "sibtag")}, Checks: []string{"passing"}}
+				w.inst[sib.Node+"/"+sib.ID] = sib
+				fc.SetInstance(*sib)
+				check(fmt.Sprintf("register sibling %s/%s tags=%q", sib.Node, sib.ID, sib.Tags))
+			}
 			wantBefore := p.expected(w)
 			for j := range in.Checks {
 				in.Checks[j] = "critical"
@@ -442,6 +461,12 @@ func runHistory(t *rapid.T, p *pipeline, withOdd bool) {
 			for tr := range wantBefore {
 				if !after[tr] {
 					gone[tr] = true
+				}
+			}
+			for k2, other := range w.inst {
+				if k2 != k && other.Name == in.Name && p.healthy(w, other) {
+					hx.Class("catalog-fault-with-a-healthy-sibling-instance")
+					break
 				}
 			}
 			fc.SetCatalogErr(in.Name, true)
@@ -462,8 +487,16 @@ func runHistory(t *rapid.T, p *pipeline, withOdd bool) {
 			transitions++
 			// the fault ends; the next change of the registry brings the full table back
 			fc.SetCatalogErr(in.Name, false)
-			fc.Touch()
-			check("catalog lookups work again (index bumped)")
+			if p.poll > 0 || rapid.Bool().Draw(t, "heal-by-wait-timeout") {
+				// nothing changes in the registry: the next poll, or the blocking query
+				// returning because its wait time is over, reports the same index
+				fc.WakeHealth()
+				check("catalog lookups work again (next health query returns with the same index)")
+				hx.Class("catalog-fault-healed-without-an-index-change")
+			} else {
+				fc.Touch()
+				check("catalog lookups work again (index bumped)")
+			}
 			continue
 		}
 		switch {
